@@ -430,11 +430,18 @@ impl TproxyWriter {
 #[async_trait]
 impl FrameWriter for TproxyWriter {
     async fn write(&mut self, frame: Frame) -> IoResult<usize> {
+        // the frame comes from the upstream: one without an address, or with a host name where the
+        // address to answer from should be, is that peer's error and ends this session only
         let src = frame
             .addr
             .as_ref()
             .and_then(|x| x.as_socket_addr())
-            .unwrap();
+            .ok_or_else(|| {
+                std::io::Error::new(
+                    std::io::ErrorKind::InvalidData,
+                    "frame from upstream has no socket address to answer from",
+                )
+            })?;
         let mut sockets = self.inner.sockets.lock().await;
         let socket = if let Some(socket) = sockets.get(&src) {
             socket
